@@ -77,6 +77,12 @@ def main():
             meta["needs"] = old.get("needs", "see notes.md")
             meta["history"] = old.get("history", []) + [{"repo_head": head, "ran": meta["ran"], "caught_by": meta["caught_by"]}]
             json.dump(meta, open(os.path.join(dst, "meta.json"), "w"), indent=1)
+            print(f"SEEDED {sid} head={head[:7]} confirmed=True caught_by={meta['caught_by']}")
+        else:
+            # nothing is stored: an older meta.json of this id (earlier /repo head) stays as it was
+            print(f"SEEDED {sid} head={head[:7]} confirmed=False (apply_rc={meta.get('apply_rc')} "
+                  f"3way={meta.get('apply_3way_rc')} demo_clean={meta.get('demo_clean_rc')} "
+                  f"demo_patched={meta.get('demo_patched_rc')} baseline={meta.get('baseline_rc')}) NOT STORED")
     finally:
         run(["git", "-C", "/repo", "worktree", "remove", "--force", wt])
         shutil.rmtree(wt, ignore_errors=True)
